@@ -1,0 +1,130 @@
+//! Verification hooks (only with feature `verif`).
+//!
+//! - Every access through [`crate::atomic::Atom`] reports to an optional, globally
+//!   installed observer *before* (`pre`) and *after* (`post`) it is performed.
+//!   `pre` may block, which lets a test harness schedule threads deterministically
+//!   at the granularity of single atomic accesses.
+//! - Re-exports of otherwise private items that the verification harness drives directly.
+
+use core::mem::{size_of, transmute, transmute_copy};
+use core::sync::atomic::{AtomicUsize, Ordering};
+
+use crate::atomic::AtomicImpl;
+
+pub use crate::bitfield::{Bitfield, RowId, verif_first_zeros_aligned as first_zeros_aligned};
+pub use crate::local::verif_local_tree as local_tree;
+pub use crate::lower::{Lower, verif_huge_entry as huge_entry};
+pub use crate::trees::{Trees, verif_tree as tree};
+
+/// Kind of an atomic access
+#[derive(Debug, Clone, Copy, PartialEq, Eq)]
+#[repr(u8)]
+pub enum Kind {
+    Load = 0,
+    Store = 1,
+    Swap = 2,
+    Cas = 3,
+}
+
+/// Called before the access: kind, address, size in bytes
+pub type PreFn = fn(Kind, usize, usize);
+/// Called after the access: value before, value after, success
+pub type PostFn = fn(u64, u64, bool);
+
+static PRE: AtomicUsize = AtomicUsize::new(0);
+static POST: AtomicUsize = AtomicUsize::new(0);
+
+/// Install (or remove) the global observer.
+pub fn set_hooks(hooks: Option<(PreFn, PostFn)>) {
+    match hooks {
+        Some((pre, post)) => {
+            POST.store(post as usize, Ordering::SeqCst);
+            PRE.store(pre as usize, Ordering::SeqCst);
+        }
+        None => {
+            PRE.store(0, Ordering::SeqCst);
+            POST.store(0, Ordering::SeqCst);
+        }
+    }
+}
+
+#[inline]
+fn pre<I: AtomicImpl>(kind: Kind, a: &I) {
+    let p = PRE.load(Ordering::Relaxed);
+    if p != 0 {
+        let f: PreFn = unsafe { transmute(p) };
+        f(kind, a as *const I as usize, size_of::<I::V>());
+    }
+}
+#[inline]
+fn post<V: Copy>(old: V, new: V, ok: bool) {
+    let p = POST.load(Ordering::Relaxed);
+    if p != 0 {
+        let f: PostFn = unsafe { transmute(p) };
+        f(to_u64(old), to_u64(new), ok);
+    }
+}
+
+fn to_u64<V: Copy>(v: V) -> u64 {
+    unsafe {
+        match size_of::<V>() {
+            1 => transmute_copy::<V, u8>(&v) as u64,
+            2 => transmute_copy::<V, u16>(&v) as u64,
+            4 => transmute_copy::<V, u32>(&v) as u64,
+            8 => transmute_copy::<V, u64>(&v),
+            _ => unreachable!(),
+        }
+    }
+}
+
+pub fn load<I: AtomicImpl>(a: &I) -> I::V {
+    pre(Kind::Load, a);
+    let v = a.load();
+    post(v, v, true);
+    v
+}
+pub fn store<I: AtomicImpl>(a: &I, v: I::V) {
+    pre(Kind::Store, a);
+    a.store(v);
+    post(v, v, true);
+}
+pub fn swap<I: AtomicImpl>(a: &I, v: I::V) -> I::V {
+    pre(Kind::Swap, a);
+    let old = a.swap(v);
+    post(old, v, true);
+    old
+}
+/// Strong and weak compare exchange (the hooked variant never fails spuriously)
+pub fn compare_exchange<I: AtomicImpl>(a: &I, current: I::V, new: I::V) -> Result<I::V, I::V> {
+    pre(Kind::Cas, a);
+    let r = a.compare_exchange(current, new);
+    match r {
+        Ok(old) => post(old, new, true),
+        Err(old) => post(old, old, false),
+    }
+    r
+}
+/// Same loop as `core`'s `try_update`, built from hooked accesses.
+pub fn try_update<I: AtomicImpl, F: FnMut(I::V) -> Option<I::V>>(
+    a: &I,
+    mut f: F,
+) -> Result<I::V, I::V> {
+    let mut prev = load(a);
+    while let Some(next) = f(prev) {
+        match compare_exchange(a, prev, next) {
+            Ok(x) => return Ok(x),
+            Err(next_prev) => prev = next_prev,
+        }
+    }
+    Err(prev)
+}
+/// Same loop as `core`'s `update`, built from hooked accesses.
+pub fn update<I: AtomicImpl, F: FnMut(I::V) -> I::V>(a: &I, mut f: F) -> I::V {
+    let mut prev = load(a);
+    loop {
+        match compare_exchange(a, prev, f(prev)) {
+            Ok(x) => return x,
+            Err(next_prev) => prev = next_prev,
+        }
+    }
+}
